@@ -346,11 +346,63 @@ package cputensor
 //@   loop 0 invariant forall(k, 0, rank(t), imp(swapPos(k, rank(t)) <= swapPos(i, rank(t)), state[k] == old(state[k])))
 //@   loop 0 decreases swapPos(i, rank(t)) + 1
 
+// LEX (row-major positions). val(J, S, k) is the Horner value of the digits J[0..k) over the sizes S on top of the overflow
+// digit J[-1] (domain function, recursive definition); flat(t, p) is *defined* as the element whose index has value p.
+// valExt is proved; the three arithmetic facts about mixed-radix numbers below are paper lemmas (the induction step of
+// valSucc did not discharge on any back end, DESIGN.md 0.7): the odometer successor adds one, a value is bounded by
+// the sizes, every position below the number of elements is the value of an index in bounds.
+//@ axiom valDef: forallJ(J, forallJ(S, forallI(k, val(J, S, k) == ite(k <= 0, J[0-1], val(J, S, k-1) * S[k-1] + J[k-1]))))
+//@ define valExtBody(k) := forallJ(A, forallJ(B, forallJ(S, forallJ(S2, imp(sameOn(A, B, 0-1, k) && sameOn(S, S2, 0, k), val(A, S, k) == val(B, S2, k))))))
+//@ induct valExt: up valExtBody @uses valDef
+//@ define valZeroBody(k) := forallJ(J, forallJ(S, imp(forall(j, 0-1, k, J[j] == 0), val(J, S, k) == 0)))
+//@ induct valZero: up valZeroBody @uses valDef
+//@ axiom flatDef: forallT(t, forallJ(J, imp(inb(t, J) && J[0-1] == 0, flat(t, val(J, shp(t), rank(t))) == el(t, J))))
+//@ axiom valSucc: forallJ(A, forallJ(B, forallJ(S, forallI(k, imp(k >= 0 && odoK(A, B, S, k) && validUpTo(A, S, k), val(B, S, k) == val(A, S, k) + 1)))))
+//@ axiom valBound: forallJ(J, forallJ(S, forallI(k, imp(k >= 0 && validUpTo(J, S, k) && forall(j, 0, k, S[j] >= 1),
+//@                 imp(J[0-1] == 0, 0 <= val(J, S, k) && val(J, S, k) < prod(S, 0, k)) && imp(J[0-1] >= 1, val(J, S, k) >= prod(S, 0, k))))))
+//@ axiom unflatten: forallT(t, forallI(p, imp(0 <= p && p < nelems(t), inb(t, unval(t, p)) && unval(t, p)[0-1] == 0 && val(unval(t, p), shp(t), rank(t)) == p)))
+//@ lemma prodShp: forallT(t, imp(t != nil && published(t), prod(shp(t), 0, rank(t)) == nelems(t))) @uses dimsLink
+
 //@ func CPUTensor.reshape
-//@   requires forall(k, 0, len(shape), shape[k] > 0) && prod(shape, 0, len(shape)) == nelems(t)
-//@   assumed L2 linear element generator + initWith.fill (row-major sequence preserved: lemma LEX); bounded stand-in: rac TestShapeOps
+//@   requires published(t) && forall(k, 0, len(shape), shape[k] > 0) && prod(shape, 0, len(shape)) == nelems(t)
+//@   callghost linearElemGenerator: S = idx(shape); n = len(shape)
+//@   uses dimsLink, filledWF, filledEl, wfExt
+//@   have genFloat(elemGen) && hasShape(o, shape) && nelems(o) == nelems(t)
+//@   have forallJ(J, imp(inb(o, J), el(o, J) == fval(genAt(elemGen, mix(zeroIdx(), J, 0, len(shape))))))
+//@   have forallJ(J, imp(inb(o, J) && J[0-1] == 0, el(o, J) == flat(t, val(J, shp(o), rank(o))))) @uses valExt
+//@   have forall(p, 0, nelems(t), inb(o, unval(o, p)) && unval(o, p)[0-1] == 0 && val(unval(o, p), shp(o), rank(o)) == p) @uses unflatten
+//@   have forall(p, 0, nelems(t), el(o, unval(o, p)) == flat(t, p))
+//@   have forall(p, 0, nelems(t), flat(o, p) == el(o, unval(o, p))) @uses flatDef
+//@   have forall(p, 0, nelems(t), flat(o, p) == flat(t, p))
 //@   returns fresh
 //@   ensures o != nil && hasShape(o, shape) && nelems(o) == nelems(t) && forall(p, 0, nelems(t), flat(o, p) == flat(t, p))
+
+// The linear generator reads t in row-major order, one element per call, while fill enumerates the (ghost) target shape
+// S of rank n with the same number of elements: source index and target index always have the same value.
+//@ func CPUTensor.linearElemGenerator
+//@   ghostparam S Idx, n Int
+//@   requires published(t) && n >= 0 && forall(k, 0, n, S[k] >= 1) && prod(S, 0, n) == nelems(t)
+//@   uses dimsLink, valZero
+//@   returns fresh
+//@   modifies genIdx(res)
+//@   ensures res != nil && genRank(res) == n && sameOn(genShape(res), S, 0, n) && genIdx(res) == zeroIdx()
+//@   ensures forallJ(Q, genAt(res, Q) == mkF(flat(t, val(Q, S, n))))
+//@ func CPUTensor.linearElemGenerator#0
+//@   implements cputensor.initializerFunc
+//@   uses dimsLink, flatDef, valSucc, valBound, prodShp, valExt
+//@   modifies state
+//@   yields genRank(self) == n && genShape(self) == S && forallJ(Q, genAt(self, Q) == mkF(flat(t, val(Q, S, n))))
+//@   invariant t != nil && published(t) && len(state) == rank(t) && n >= 0 && forall(k, 0, n, S[k] >= 1) && prod(S, 0, n) == nelems(t)
+//@   invariant forall(k, 0, rank(t), 0 <= state[k] && state[k] < dim(t, k))
+//@   invariant imp(genIdx(self)[0-1] == 0, val(upd(idx(state), 0-1, 0), shp(t), rank(t)) == val(genIdx(self), S, n))
+//@   loop 0 invariant 0-1 <= i && i < rank(t) && len(state) == rank(t)
+//@   loop 0 invariant forall(k, 0, rank(t), imp(k > i, old(state[k]) == dim(t, k) - 1 && state[k] == 0))
+//@   loop 0 invariant forall(k, 0, rank(t), imp(k <= i, state[k] == old(state[k])))
+//@   loop 0 decreases i + 1
+//@   have elem == mkF(flat(t, val(upd(idx(old(state)), 0-1, 0), shp(t), rank(t))))
+//@   have odoK(upd(idx(old(state)), 0-1, 0), upd(idx(state), 0-1, ite(i < 0, 1, 0)), shp(t), rank(t))
+//@   have val(upd(idx(state), 0-1, ite(i < 0, 1, 0)), shp(t), rank(t)) == val(upd(idx(old(state)), 0-1, 0), shp(t), rank(t)) + 1
+//@   have imp(i < 0, val(upd(idx(state), 0-1, 1), shp(t), rank(t)) >= nelems(t))
 
 //@ lemma elProjMix: forallT(t, forallJ(S, forallI(m, forallJ(P, forallJ(J, imp(rank(t) <= m, el(t, projA(t, S, m, mix(P, J, 0, m))) == el(t, projA(t, S, m, J))))))))
 //@ lemma elProjA: forallT(t, forallT(o, forallJ(S, forallI(m, forallJ(J, imp(rank(t) <= m && hasShapeA(o, S, m), el(t, projA(t, S, m, J)) == el(t, proj(t, o, J))))))))
